@@ -112,6 +112,20 @@ EQUIVALENT = {
  ('stub.go', 832, 'negate-if'): 'plugin identity derived from the binary name; every harness passes name and index explicitly',
  ('generate.go', 170, 'int+1'): 'as the deletion on the same line: the upstream generator replaces an existing variable in place',
  ('generate.go', 136, 'negate-if'): 'last statement of Adjust and AdjustRlimits never fails: returns nil either way',
+ # batch 3 (sibling-field: one name used where a similar one was meant)
+ ('mux.go', 309, 'sibling-field'): 'a net.Conn read returns neither ttrpc error: dead case either way',
+ ('generate.go', 558, 'sibling-field'): 'initConfig on a generator whose Config is never nil',
+ ('generate.go', 553, 'sibling-field'): 'the spec under test always has a linux section, the two initialisers then do the same',
+ ('adaptation.go', 346, 'sibling-field'): 'as c07-no-prune: a closed plugin that stays listed after a state change is skipped by the next relay; the plugin directory scanned instead does not exist',
+ ('adaptation.go', 178, 'sibling-field'): 'log level only', ('plugin.go', 466, 'sibling-field'): 'log level only',
+ ('plugin.go', 425, 'sibling-field'): 'log text only', ('stub.go', 635, 'sibling-field'): 'log text only',
+ ('plugin.go', 304, 'sibling-field'): 'guards logging only',
+ ('plugin.go', 364, 'sibling-field'): 'process handling of launched plugins',
+ ('stub.go', 225, 'sibling-field'): 'only the text of the error for a repeated option',
+ ('adaptation.go', 201, 'sibling-field'): 'Adaptation.Stop is outside every claimed property',
+ ('adaptation.go', 202, 'sibling-field'): 'Adaptation.Stop is outside every claimed property',
+ ('result.go', 1075, 'sibling-field'): 'the owners copy is taken of the target of an ignore-failure update; mount claims only exist for the container being created, which an update cannot target',
+ ('stub.go', 379, 'sibling-field'): 'failure path of Start before the listener exists',
 }
 cnt = collections.Counter(r['outcome'].split(' (')[0] for r in rs)
 print(len(rs), 'mutants:', dict(cnt))
